@@ -494,6 +494,11 @@ func (e *Exec) mergeVal(c *Term, a, b Val) Val {
 			return e.mergeMapData(c, x, y)
 		}
 	}
+	if x, ok := a.(*ScanObj); ok {
+		if y, ok := b.(*ScanObj); ok && len(x.Lines) == len(y.Lines) && (len(x.Lines) == 0 || &x.Lines[0] == &y.Lines[0]) && x.N == y.N {
+			return &ScanObj{Lines: x.Lines, N: x.N, Pos: e.S.Ite(c, x.Pos, y.Pos)}
+		}
+	}
 	if e.valEq(a, b) {
 		return a
 	}
